@@ -48,6 +48,13 @@ def reset_placeholders() -> None:
     del _placeholders[:]
 
 
+# the table is per path: it is emptied when the engine starts a path (it used to grow for the life of a worker process,
+# and patterns whose placeholder index passed 4096 were then taken for concrete patterns - found by the first
+# end-to-end thorough run of C11)
+from .core import Engine as _Engine  # noqa: E402
+_Engine.path_start_hooks.append(reset_placeholders)
+
+
 def escape(pattern: Any) -> Any:
     if isinstance(pattern, SymStr):
         if pattern.is_concrete():
@@ -58,6 +65,8 @@ def escape(pattern: Any) -> Any:
                 out.append(_re.escape(chr(c)))
             else:
                 _placeholders.append(c)
+                if len(_placeholders) >= 0x10000:
+                    raise Unsupported('more than 65535 symbolic literals in regular expressions on one path')
                 out.append(chr(_PH_BASE + len(_placeholders) - 1))
         return ''.join(out)
     if isinstance(pattern, SymBytes):
@@ -303,7 +312,7 @@ class SymPattern:
     def _has_ph(self) -> bool:
         if not self._is_str:
             return False
-        return any(_PH_BASE <= ord(ch) < _PH_BASE + 4096 for ch in self.real.pattern)
+        return any(_PH_BASE <= ord(ch) < _PH_BASE + 0x10000 for ch in self.real.pattern)
 
     # matcher -----------------------------------------------------------
     def _m(self, ops: list, i: int, s: Any, pos: int, groups: dict,
